@@ -83,6 +83,7 @@ def run(ctx):
     dist = {"regime": {}, "flag_bit_set": {b: 0 for b in FLAGBITS}, "result": {}}
     seen_known = {}
     viol = []
+    pending_q = []
     distinct = set()
     for cid, (regime, feats, tsz, vsz) in feat.items():
         dist["regime"][regime] = dist["regime"].get(regime, 0) + 1
@@ -93,9 +94,10 @@ def run(ctx):
                 st["pretouch_pairs"] += 1
                 rv = vr.get(key)
                 if rv is None or not ((rj[0] != "ok" and rv[0] != "ok") or rj == rv):
-                    viol.append(("pretouch", cid, "after Pretouch with compile options (EncOnlyOmitNull/MaxInlineDepth/RecursiveDepth = %s) JIT and interpreter differ: jit %s / vm %s"
-                                 % (key[2:], L.show(rj), L.show(rv)),
-                                 dict(L.case_lines(d, cid), pretouch=key[2:], jit=rj[:2], vm=(rv or ["missing"])[:2], features=sorted(feats))))
+                    # Pretouch itself is not deterministic (it keeps one of two (type, pointer-value) requests per level, by Go map
+                    # iteration order): a single run per process compares two draws.  Like for like = the SETS of outcomes the two
+                    # back ends can produce for this scenario (48 repetitions each); they must coincide.
+                    pending_q.append((cid, key, rj, rv, feats))
                 continue
             if not key.startswith("R:"):
                 continue
@@ -136,6 +138,26 @@ def run(ctx):
                     st["tie_bad"] += 1
                     viol.append(("tie", cid, "Marshal (%s, option word %d) differs from the model: impl %s / model %s" % (who, fl, L.show(r), L.show(e)),
                                  dict(L.case_lines(d, cid), flags=fl, backend=who, impl=r[:2], model=e[:2], features=sorted(feats))))
+    st["pretouch_rechecked"] = 0
+    for cid, key, rj, rv, feats in pending_q[:12]:
+        st["pretouch_rechecked"] += 1
+        sj, sv = L.pretouch_outcome_sets(hb, d, ctx.seed, n, cid, extra)
+        aj, av = sj.get(key, set()), sv.get(key, set())
+        norm = lambda a: set(("err",) if x[0] != "ok" else tuple(x) for x in a)
+        kf = "KF-C12-pretouch-pv-order"
+        if aj and norm(aj) == norm(av) and len(aj) > 1 and kf in known:
+            st["known"] += 1
+            seen_known.setdefault(kf, cid)
+            continue
+        viol.append(("pretouch", cid, "after Pretouch with compile options (EncOnlyOmitNull/MaxInlineDepth/RecursiveDepth = %s) JIT and interpreter differ: jit %s / vm %s "
+                     "(distinct outcomes over 48 repetitions: jit %d, vm %d, common %d)"
+                     % (key[2:], L.show(rj), L.show(rv), len(aj), len(av), len(norm(aj) & norm(av))),
+                     dict(L.case_lines(d, cid), pretouch=key[2:], jit=rj[:2], vm=(rv or ["missing"])[:2], features=sorted(feats),
+                          jit_outcomes=len(aj), vm_outcomes=len(av))))
+    for cid, key, rj, rv, feats in pending_q[12:]:
+        viol.append(("pretouch", cid, "after Pretouch with compile options (%s) JIT and interpreter differ (not re-examined: more than 12 such cases): jit %s / vm %s"
+                     % (key[2:], L.show(rj), L.show(rv)),
+                     dict(L.case_lines(d, cid), pretouch=key[2:], jit=rj[:2], vm=(rv or ["missing"])[:2], features=sorted(feats))))
     for kf, cid in sorted(seen_known.items()):
         ctx.known(kf, "%s (e.g. case %s)" % (known[kf]["signature"], cid))
     ctx.cov["evaluations"] = st["pairs"] + st["tie"] + st["pretouch_pairs"]
